@@ -359,13 +359,26 @@ def async_case(args) -> Dict[str, Any]:
         M = join("M", 1, 90, b"mon", subs=(P.MT_CLIENT_INFO, P.MT_CLIENT_CLOSED, P.MT_ACTIVE_CLIENTS, P.MT_FAILED_MESSAGE))
         S = join("S", 2, 31, b"ess", subs=(T1,))
         Pp = join("P", 3, 21, b"pee")
-        dsubs = {"infosub": (P.MT_CLIENT_INFO,), "suball": (ALL,), "logger": (ALL,), "subscribed": (T1, P.MT_ACTIVE_CLIENTS)}[role]
+        dsubs = {"infosub": (P.MT_CLIENT_INFO,), "suball": (ALL,), "logger": (ALL,), "subscribed": (T1, P.MT_ACTIVE_CLIENTS),
+                 "trafficsub": (P.MT_MESSAGE_TRAFFIC,), "timingsub": (P.MT_TIMING_MESSAGE,)}[role]
         D = join("D", 4, 41, b"dee", logger=1 if role == "logger" else 0, subs=dsubs)
-        E = join("E", 5, 42, b"eee", subs=(P.MT_CLIENT_INFO,))
+        E = join("E", 5, 42, b"eee", subs=(P.MT_CLIENT_INFO,) + (dsubs if trig == "reports" else ()))
+        if trig == "reports":
+            # 70 distinct types in one statistics interval: the traffic report spans two sub-messages; the leaver is found dead
+            # while the report goes out
+            w.tick(1.05)
+            w.step()
+            w.settle()
+            Pp.send(b"".join(P.mkframe(3000 + i, b"", timecode=tc, src_mod_id=21) for i in range(70)))
+            w.settle(limit=10 ** 4)
+            E.drain()
         M.drain()
         S.drain()
         w.kill_plan = (k, [D], how)  # k counts the manager's send calls of the coming round
-        if trig == "tick":
+        if trig == "reports":
+            w.tick(1.05)
+            w.step()
+        elif trig == "tick":
             w.tick(5.2)
             w.step()
         elif trig == "publish":
@@ -403,6 +416,11 @@ def async_case(args) -> Dict[str, Any]:
             w.settle()
             if sum(1 for f in S.drain() if f.payload == b"next") != 1:
                 probs.append({"prop": "C07", "kind": "survivor-not-served"})
+            if trig == "reports":
+                # the other subscriber of the report still receives all of it
+                nrep = sum(1 for f in E.drain() if f.msg_type == dsubs[0])
+                if nrep != (2 if role == "trafficsub" else 1):
+                    probs.append({"prop": "C07", "kind": "survivor-missed-part-of-the-report", "got": nrep, "expected": 2 if role == "trafficsub" else 1})
             # ... and the departed connection receives nothing any more
             if not w.alive:
                 probs.append({"prop": "C03", "kind": "manager-died", "detail": str((w.exit or ("", ""))[1])[:200]})
@@ -423,6 +441,10 @@ def async_cases(tier: str):
                 for trig, kmax in (("tick", 40), ("publish", 12), ("ctl", 16)):
                     for k in range(1, kmax + 1):
                         out.append((tc, role, how, k, trig))
+        for role in ("trafficsub", "timingsub"):
+            for how in ("rst", "fin"):
+                for k in range(1, 7):
+                    out.append((tc, role, how, k, "reports"))
     return out
 
 
